@@ -81,6 +81,11 @@ func NewReverseSuffixSetSearcher(
 		if len(suffixLiterals.Get(i).Bytes) < 2 {
 			return nil, ErrNoSuffixSet
 		}
+		// The `.*(lit1|lit2)` fast path locates the match on one line; it cannot be
+		// used when a suffix literal itself contains a newline.
+		if bytes.IndexByte(suffixLiterals.Get(i).Bytes, '\n') >= 0 {
+			matchStartZero = false
+		}
 	}
 
 	// Build Teddy prefilter from suffix literals
